@@ -34,7 +34,7 @@ add("C08", "pbt", "property-based testing over the tag x arity grid + table-driv
     "Trusts refmodel::proto::CONTROL_TABLE as a copy of erl_dist_protocol. Known open finding C08-F1 (SPAWN_REQUEST arity).",
     "DESIGN.md §7 C08")
 add("C09", "pbt", "exhaustive enumeration of all n! arrival orders (n<=5/7) x duplicates x out-of-range ids x all merges of two sequences + proptest histories, against a model assembler",
-    "Model-based: every call's return value and pending_count() after every step are compared with a model assembler over exhaustive small configurations and random histories with up to 4 interleaved sequences, 64 fragments, duplicates, bogus ids, u64 sequence ids and expiry.",
+    "Model-based: every call's return value and pending_count() after every step are compared with a model assembler over exhaustive small configurations and random histories with up to 4 interleaved sequences, 64 fragments, duplicates, bogus ids, u64 sequence ids and expiry; plus 60 000 (thorough: 200 000) two-fragment sequences all in flight at once, headers first and continuations first.",
     "Known open findings C09-F1 (ascending-id concatenation, pinned by the repo's tests) and C09-F2 (>100000 fragments never complete); every other clause is still decided on the full domain.",
     "DESIGN.md §7 C09")
 add("C10", "pbt", "property-based testing: independent encoder places identifiers (plain / LOCAL_EXT, every inner tag) in every context; byte spans located by an independent reader; generated conversion sequences",
@@ -51,9 +51,9 @@ add("C14", "pbt", "exhaustive sweep of atom counts 0..258 x long-atom x payload 
     "DESIGN.md §7 C14")
 add("C15", "pbt", "property-based round-trip testing over a family of 38 Rust types (serde derive + derive(ElixirStruct)), via term and via bytes",
     "from_term(to_term(v)) == v and from_bytes(to_bytes(v)) == v (floats by bits) for generated values over full integer ranges, floats (infinities: round trip or an error), sequences and strings of 65534..200000 elements, chars incl. non-BMP, strings, options, tuples, sequences, maps with several key types, all struct and enum shapes and nestings; the bytes must also be readable by an independent ETF reader.",
-    "Excludes the shapes the statement excludes (nested options, Option<()>, NaN).",
+    "Excludes nested options and NaN (inherent ambiguity of the format); Option<()>, Option<unit struct> and Option<bool> are generated: in the default build only `undefined` reads as None.",
     "DESIGN.md §7 C15")
-add("C20", "pbt", "property-based testing: i128 reference model for ranges; round trip (memory + wire) and wrong-shape mutation of every wrapper; proplist/map metamorphic relations",
+add("C20", "pbt", "property-based testing: i128 reference model for ranges; round trip (memory + wire) and wrong-shape mutation of every wrapper; validating date/time constructors against an independent proleptic-Gregorian calendar; proplist/map metamorphic relations",
     "ElixirRange len/contains/iteration/size_hint against an exact i128 model at the i64 extremes under overflow checks; every Elixir wrapper over all field values its Rust type admits must round-trip in memory and through the wire, and must answer None (or the term's own values) for out-of-range fields, wrong types, missing keys and wrong struct tags; builders and proplist<->map conversions lose and invent nothing.",
     "Embedded terms compared by denoted value after the wire; documented conventions of the wrappers (nil = absent, module prefix stripping) are respected by the generator.",
     "DESIGN.md §7 C20")
@@ -72,7 +72,7 @@ add("C04", "netbed", "stateful property-based testing of the handshake API again
     "(a) Generated call histories on HandshakeStateMachine (any order, valid/invalid arguments, reuse after disconnect) with a peer model that learns this side's challenge only from the 'r' message; (b) Connection::connect() against a scripted responder with every deviation at every step (refusals, wrong/misdirected digests, malformed/truncated/oversized frames, out-of-order ack, close, reset, silence). Connected <=> correct ack for this handshake's challenge; flags = intersection; n/c/r layouts and digests checked with an own MD5; errors within the configured timeout in virtual time; no panic.",
     "Own MD5 and handshake layouts from the OTP docs; virtual time moves only when the script advances it (auto-advance inhibited), real-time watchdog => inconclusive.",
     "DESIGN.md §7 C04")
-add("C06", "netbed", "model-based property testing: scripts from a conforming sender model (pass-through / distribution header with persistent atom cache / fragments / ticks / junk) over a real loopback socket with generated TCP segmentation",
+add("C06", "netbed", "model-based property testing: scripts from a conforming sender model (pass-through / distribution header with persistent atom cache / fragments / ticks / junk incl. runs of 250..400 bad frames) over a real loopback socket with generated TCP segmentation",
     "Generated scripts of valid messages of every control kind in every wire form, interleaved with ticks and malformed frames, are written in arbitrary segments; Connection::receive_message and receive_message_from_read_half must return each valid message exactly once, in order, unchanged, with at most one error per bad frame and no panic; a frame the peer started and abandoned by closing the connection must not be returned as a message; on the read-half loop the peer may fall silent for longer than the per-frame timeout and end the silence with a frame in two pieces.",
     "Known open finding C06-F1 (messages in >= 2 fragments, root cause C09-F1); junk never poses as a header frame of the connection.",
     "DESIGN.md §7 C06")
@@ -80,15 +80,15 @@ add("C07", "netbed", "property-based testing with an independent protocol reader
     "Sequences of the six send-side operations with generated arguments in both framing modes (incl. asymmetric flag offers, payloads with 248..320 distinct atoms around the header's limit of 255, sends whose frame length steps byte by byte across 2^12..2^16, consecutive sends whose payloads differ only in the sign of a zero, unencodable operations, never-connected and closed connections) are read back by an independent deframer and reader and compared with the protocol's control tuple; 1..5 tasks issue operations through one Node under generated schedules that yield between the partial writes of a frame: frames must not interleave and per-task order must hold.",
     "Task interleaving is controlled at sched_point hooks and real I/O waits only.",
     "DESIGN.md §7 C07")
-add("C17", "netbed", "stateful property-based testing: generated waves of concurrent remote calls against a scripted peer (replies in generated order, late / duplicate / stray replies, silence, peer close before or during a wave) + generated task schedules, virtual clock",
+add("C17", "netbed", "stateful property-based testing: generated waves of concurrent remote calls against a scripted peer (replies in generated order, late / duplicate / stray replies, silence, peer close before or during a wave, calls whose request cannot be encoded) + generated task schedules, virtual clock",
     "1..3 waves of 1..6 concurrent rpc_call_raw_with_timeout calls through one Node, each with its own virtual timeout and a unique argument; the peer answers at once, late, never, twice, or again during the next wave, in generated order, sends replies to pids that never had a call, and closes before or during the last wave. A single caller can be held at a yield point right after its request was written until the peer's reply has been routed (a reply must find its call registered). Caller identifiers are optionally re-used one allocator round later; the stalled-peer campaign also lets the peer close, reset or half-close while the request is stuck in the full socket (calls return / the node stays live and deregisters the peer); a second campaign sends a request larger than the socket buffers to a peer that reads only after the call's timeout has passed (the frame must arrive whole). A call must return its own reply or a timeout / cancellation / connection error, never another call's reply; a reply consumed before the timeout must not be reported as a timeout; when all calls have returned the outstanding-call table must be empty (hook accessor).",
     "Virtual time moves only when the script advances it; task interleaving is controlled at sched_point hooks (registration / request-written / wait / lookup steps).",
     "DESIGN.md §7 C17")
-add("C18", "netbed", "model-based stateful property testing (proptest histories of spawn/register/link/monitor/send/failure/$gen_call against a process-table model) under generated yield schedules + unshrunk parallel stress on a multi-threaded runtime",
+add("C18", "netbed", "model-based stateful property testing (proptest histories of spawn/register/link/monitor/send/failure/$gen_call/$gen_cast/$gen_notify against a process-table model) under generated yield schedules + unshrunk parallel stress on a multi-threaded runtime",
     "Histories over recorder processes, a GenServerProcess and a GenEventManager on a started Node are interpreted against a model of liveness, names, links and monitors; every handler log must equal the model (each accepted message once and in sender order, exactly one Exit/MonitorExit per surviving linked/monitoring process with the right pid and reference, none after unlink/demonitor), dead pids and their names stop resolving and names can be re-registered, a held name cannot be taken, whereis/registered/process_count agree, each $gen_call is answered once with the caller's reference. A second campaign asks the same questions with real parallelism (4 workers): parallel senders, parallel registration of one free name, simultaneous failures.",
     "Deterministic interleavings are controlled at sched_point hooks; sends racing with a failure and links created while the target dies are not generated (the statement gives no outcome for them). The parallel campaign is not schedule-pinned: its failing inputs are saved unshrunk and replayed 40 times.",
     "DESIGN.md §7 C18")
-add("C19", "netbed", "property-based testing of inbound scripts from a scripted peer (valid routes, unroutable targets, ignored kinds, malformed frames, ticks, silence, bursts into a busy mailbox, fatal transport events) against a routing model",
+add("C19", "netbed", "property-based testing of inbound scripts from a scripted peer (valid routes, unroutable targets, ignored kinds, malformed frames, ticks, silence, bursts into a busy mailbox, registered names changing hands locally between inbound messages, fatal transport events) against a routing model",
     "Generated inbound scripts over a real loopback socket: every SEND/REG_SEND/EXIT/MONITOR_P_EXIT for a live process must reach exactly that process once and in order, unroutable or malformed input - single bad frames and runs of 17..96 of them - must change nothing and must not stop the receiver (a marker message after each bad item must still arrive), quiet periods with peer ticks must not drop the connection, and transport-fatal events must remove the connection and let calls fail.",
     "Inbound frames in pass-through form (header-mode decoding is C06/C14's subject).",
     "DESIGN.md §7 C19")
